@@ -135,4 +135,44 @@ CHECKS = {
   "ref": "DESIGN.md §5 C18",
   "note": "trusted: Lean kernel; translator for Gen/Pool.lean; scheduler shim's pool = ThreadPoolExecutor; cpu_count is a parameter",
   "technique": "Lean 4 proof (invariant over the pool model; generated sizing function) + lock-step co-simulation"},
+ "C01": {
+  "text": "Lean theorems c01_at_most_once (no id answered twice), c01_reply_for_request, c01_never_lost (an unsubscription always finds its bookkeeping), c01_quiescent (at quiescence every arrived request is answered), c01_progress (no deadlock), and the one-step theorems fixing what each reply says (late SUB -> SubscribeError 'too late'; subscribe/unsubscribe returned -> V, raised -> the adapter's error; nothing to undo -> V). Proof: Conc/InvProof.lean shows the ~45-clause invariant Inv inductive for every action of the per-item machine (inv_reach: every "
+          "state reachable by any schedule / arrival timing / adapter outcomes with a well-formed history satisfies Inv); the property theorems "
+          "are corollaries. Tie: lock-step co-simulation of the real DataProviderServer under a deterministic scheduler (state, effects, "
+          "enabled threads and the invariant compared after every chunk), fine-grained line-level-preemption runs with trace oracles.",
+  "ref": "DESIGN.md §0a, §3, §5 C01",
+  "note": "trusted: Lean kernel; Conc/Item.lean hand-written (tied by co-simulation); scheduler shim; WF hypothesis on the request history",
+  "technique": "Lean 4 proof (inductive invariant over all schedules of a small-step model) + lock-step co-simulation of the real server"},
+ "C02": {
+  "text": "Lean theorems c02_no_overlap (at most one thread inside an adapter call per item), c02_order (processing strictly in arrival order), c02_paired (unsubscribe begins only after the preceding request's subscribe returned normally), c02_usb_after_failure, c02_skip_only_if_later, c02_latest_executed. Proof: Conc/InvProof.lean shows the ~45-clause invariant Inv inductive for every action of the per-item machine (inv_reach: every "
+          "state reachable by any schedule / arrival timing / adapter outcomes with a well-formed history satisfies Inv); the property theorems "
+          "are corollaries. Tie: lock-step co-simulation of the real DataProviderServer under a deterministic scheduler (state, effects, "
+          "enabled threads and the invariant compared after every chunk), fine-grained line-level-preemption runs with trace oracles.",
+  "ref": "DESIGN.md §0a, §3, §5 C02",
+  "note": "trusted: Lean kernel; Conc/Item.lean hand-written (tied by co-simulation); scheduler shim; WF hypothesis on the request history",
+  "technique": "Lean 4 proof (inductive invariant over all schedules of a small-step model) + lock-step co-simulation of the real server"},
+ "C03": {
+  "text": "Lean theorems c03_tag (an id read by a listener call is the id of an executed subscription of this item), c03_forward (while the forwarding window of r is open every listener read returns r), c03_window_opens, c03_drop (never subscribed / unsubscription fully processed => dropped), c03_not_stale (an id read is always the most recently published one), c03_read_builds_line. Proof: Conc/InvProof.lean shows the ~45-clause invariant Inv inductive for every action of the per-item machine (inv_reach: every "
+          "state reachable by any schedule / arrival timing / adapter outcomes with a well-formed history satisfies Inv); the property theorems "
+          "are corollaries. Tie: lock-step co-simulation of the real DataProviderServer under a deterministic scheduler (state, effects, "
+          "enabled threads and the invariant compared after every chunk), fine-grained line-level-preemption runs with trace oracles.",
+  "ref": "DESIGN.md §0a, §3, §5 C03",
+  "note": "trusted: Lean kernel; Conc/Item.lean hand-written (tied by co-simulation); scheduler shim; WF hypothesis on the request history",
+  "technique": "Lean 4 proof (inductive invariant over all schedules of a small-step model) + lock-step co-simulation of the real server"},
+ "C17": {
+  "text": "Lean theorems c17_emits (after a False availability answer the next steps are forced: the id read is the executing subscription's, the EOS line is built with it and enqueued before subscribe() begins), c17_branch (only False leads there), c17_raises (query raises => error reply, no subscribe), c17_executor_is_current. Proof: Conc/InvProof.lean shows the ~45-clause invariant Inv inductive for every action of the per-item machine (inv_reach: every "
+          "state reachable by any schedule / arrival timing / adapter outcomes with a well-formed history satisfies Inv); the property theorems "
+          "are corollaries. Tie: lock-step co-simulation of the real DataProviderServer under a deterministic scheduler (state, effects, "
+          "enabled threads and the invariant compared after every chunk), fine-grained line-level-preemption runs with trace oracles.",
+  "ref": "DESIGN.md §0a, §3, §5 C17",
+  "note": "trusted: Lean kernel; Conc/Item.lean hand-written (tied by co-simulation); scheduler shim; WF hypothesis on the request history",
+  "technique": "Lean 4 proof (inductive invariant over all schedules of a small-step model) + lock-step co-simulation of the real server"},
+ "C19": {
+  "text": "Lean theorems c19_unsub (at quiescence, last request an unsubscription => item not registered), c19_dead_generations_empty (every unregistered generation of bookkeeping is empty and unreferenced, in every reachable state), c19_probe_dropped, c19_live (last request a subscription => exactly its id is published). Thorough tier adds a real-thread census test over 5,000 one-shot items. Proof: Conc/InvProof.lean shows the ~45-clause invariant Inv inductive for every action of the per-item machine (inv_reach: every "
+          "state reachable by any schedule / arrival timing / adapter outcomes with a well-formed history satisfies Inv); the property theorems "
+          "are corollaries. Tie: lock-step co-simulation of the real DataProviderServer under a deterministic scheduler (state, effects, "
+          "enabled threads and the invariant compared after every chunk), fine-grained line-level-preemption runs with trace oracles.",
+  "ref": "DESIGN.md §0a, §3, §5 C19",
+  "note": "trusted: Lean kernel; Conc/Item.lean hand-written (tied by co-simulation); scheduler shim; WF hypothesis on the request history",
+  "technique": "Lean 4 proof (inductive invariant over all schedules of a small-step model) + lock-step co-simulation of the real server"},
 }
